@@ -463,6 +463,113 @@ Proof.
         pose proof (set_bits_length v bf ltac:(lia) Hv). lia.
 Qed.
 
+
+(* ------------------------------------------------------------------------------------------ *)
+(* counting: nodes read and queue length are bounded by the size of the full tree, and at an early
+   break the queue is short relative to the nodes read.  Together they exclude the u32 overflow of
+   [skip_nodes] without any bound on the input length. *)
+Fixpoint sumw (bf H : Z) (q : list (Z * Z)) : Z :=
+  match q with [] => 0 | e :: r => bf ^ (H - snd e + 1) - 1 + sumw bf H r end.
+
+Lemma sumw_app bf H a b : sumw bf H (a ++ b) = sumw bf H a + sumw bf H b.
+Proof. induction a as [|e a IH]; cbn [app sumw]; [reflexivity|]. rewrite IH. lia. Qed.
+
+Lemma sumw_children bf H (f : Z -> Z) d l :
+  sumw bf H (map (fun j => (f j, d)) l) = Z.of_nat (length l) * (bf ^ (H - d + 1) - 1).
+Proof.
+  induction l as [|j l IH]; cbn [map sumw length snd]; [reflexivity|].
+  rewrite IH. lia.
+Qed.
+
+Lemma sumw_ge bf H q : bf_valid bf = true -> Forall (qwf bf H) q -> (bf - 1) * Z.of_nat (length q) <= sumw bf H q.
+Proof.
+  intros Hbf. pose proof (bf_ge2 bf Hbf). induction 1 as [|[s d] q (Hd & _) _ IH]; cbn [sumw length snd] in *; [lia|].
+  assert (bf ^ 1 <= bf ^ (H - d + 1)) by (apply Z.pow_le_mono_r; lia). rewrite Z.pow_1_r in *. lia.
+Qed.
+
+Lemma aloop_count bf H bias maxv : bf_valid bf = true -> 1 <= H <= max_height bf ->
+  forall ns, Forall (fun v => 0 <= v < 2 ^ bf) ns ->
+  forall i q out, Forall (qwf bf H) q ->
+  match aloop bf H bias maxv ns i q out with
+  | ADone i' q' _ =>
+      (bf - 1) * Z.of_nat i' + sumw bf H q' <= (bf - 1) * Z.of_nat i + sumw bf H q /\
+      (q' = [] \/ Z.of_nat (length q') + bf + (bf - 1) * Z.of_nat i <= Z.of_nat (length q) + (bf - 1) * Z.of_nat i')
+  | _ => True
+  end.
+Proof.
+  intros Hbf HH ns. pose proof (bf_ge2 bf Hbf) as Hb2.
+  pose proof (bf_pow_max bf H Hbf ltac:(lia)) as HP.
+  assert (HU : 2 ^ 35 < U64) by (vm_compute; reflexivity).
+  induction ns as [|v ns IH]; intros Hns i q out Hq.
+  - destruct q as [|[s d] q]; cbn; [split; [lia | left; reflexivity] | exact I].
+  - inversion Hns as [|? ? Hv Hns']; subst.
+    destruct q as [|[s d] q]; cbn [aloop]; [split; [cbn; lia | left; reflexivity]|].
+    inversion Hq as [|? ? Hsd Hq']; subst.
+    assert (Hstep : forall out2,
+      match aloop bf H bias maxv ns (S i) q out2 with
+      | ADone i' q' _ =>
+          (bf - 1) * Z.of_nat i' + sumw bf H q' <= (bf - 1) * Z.of_nat i + sumw bf H ((s, d) :: q) /\
+          (q' = [] \/ Z.of_nat (length q') + bf + (bf - 1) * Z.of_nat i <= Z.of_nat (length ((s, d) :: q)) + (bf - 1) * Z.of_nat i')
+      | _ => True
+      end).
+    { intros out2. specialize (IH Hns' (S i) q out2 Hq').
+      destruct (aloop bf H bias maxv ns (S i) q out2); try exact I.
+      destruct IH as (I1 & I2). destruct Hsd as (Hd & _). cbn [fst snd] in Hd.
+      cbn [sumw length snd].
+      assert (bf ^ 1 <= bf ^ (H - d + 1)) by (apply Z.pow_le_mono_r; lia). rewrite Z.pow_1_r in *.
+      split; [lia|]. destruct I2 as [->|I2]; [left; reflexivity | right; lia]. }
+    destruct (v =? 0).
+    + destruct (filled_range bf H bias maxv s d) as [[r|]|]; [apply Hstep | apply Hstep | exact I].
+    + destruct Hsd as (Hd & Hs & He). cbn [fst snd] in *.
+      destruct (Z.ltb_spec H d); [lia|].
+      assert (HPd : 0 < bf ^ (H - d)) by (apply Z.pow_pos_nonneg; lia).
+      assert (HPs : bf ^ (H - d + 1) = bf * bf ^ (H - d)) by (apply pow_split; lia).
+      rewrite pow_u64_some by nia.
+      destruct (Z.eq_dec d H) as [->|Hne].
+      * destruct (bits_loop_leaf H bias maxv s (bf ^ (H - H)) (set_bits v) q out) as (b & out' & E).
+        rewrite E. destruct b; [|apply Hstep].
+        cbn [sumw length snd].
+        replace (H - H + 1) with 1 by lia. rewrite Z.pow_1_r. split; [lia | right; lia].
+      * assert (Hj : forall j, In j (set_bits v) -> 0 <= j < bf).
+        { intros j Hin. apply (set_bits_in v bf j) in Hin; lia. }
+        rewrite bits_loop_inner; [|assumption|].
+        2:{ intros j Hin. specialize (Hj j Hin). nia. }
+        assert (Hq2 : Forall (qwf bf H) (q ++ map (fun j => (s + j * bf ^ (H - d), d + 1)) (set_bits v))).
+        { apply Forall_app. split; [assumption|]. apply Forall_forall. intros e Hin.
+          apply in_map_iff in Hin. destruct Hin as (j & <- & Hin). specialize (Hj j Hin).
+          unfold qwf. cbn [fst snd]. replace (H - (d + 1) + 1) with (H - d) by lia. nia. }
+        specialize (IH Hns' (S i) _ out Hq2).
+        destruct (aloop _ _ _ _ ns (S i) _ out); try exact I.
+        destruct IH as (I1 & I2).
+        rewrite sumw_app, sumw_children in I1. rewrite app_length, map_length in I2.
+        replace (H - (d + 1) + 1) with (H - d) in I1 by lia.
+        pose proof (set_bits_length v bf ltac:(lia) Hv) as Hc.
+        cbn [sumw length snd]. rewrite HPs.
+        split; [nia|]. destruct I2 as [->|I2]; [left; reflexivity | right; lia].
+Qed.
+
+(* no u32 overflow in skip_nodes, whatever the input length *)
+Lemma skip_safe bf H i' (q' : list (Z * Z)) : bf_valid bf = true -> 1 <= H <= max_height bf ->
+  Forall (qwf bf H) q' ->
+  (bf - 1) * Z.of_nat i' + sumw bf H q' <= bf ^ H - 1 ->
+  (q' = [] \/ Z.of_nat (length q') + bf <= 1 + (bf - 1) * Z.of_nat i') ->
+  Z.of_nat (length q') < U32 /\
+  (bf <= 4 -> snd (st_of_index bf i') + Z.of_nat (length q') * bf < U32).
+Proof.
+  intros Hbf HH Hq Hc1 Hc2. pose proof (sumw_ge bf H q' Hbf Hq) as Hge.
+  assert (Hl0 : q' = [] -> length q' = 0%nat) by (intros ->; reflexivity).
+  unfold st_of_index, U32.
+  destruct (bf_cases _ Hbf) as [E | [E | [E | E]]]; rewrite E in *; unfold max_height in HH; cbn [Z.eqb Pos.eqb snd] in *.
+  - assert (2 ^ H <= 2 ^ 31) by (apply Z.pow_le_mono_r; lia). change (2 ^ 31) with 2147483648 in *.
+    split; [lia|]. intros _. destruct Hc2 as [Hc2|Hc2]; [rewrite (Hl0 Hc2); lia | lia].
+  - assert (4 ^ H <= 4 ^ 16) by (apply Z.pow_le_mono_r; lia). change (4 ^ 16) with 4294967296 in *.
+    split; [lia|]. intros _. destruct Hc2 as [Hc2|Hc2]; [rewrite (Hl0 Hc2); lia | lia].
+  - assert (8 ^ H <= 8 ^ 11) by (apply Z.pow_le_mono_r; lia). change (8 ^ 11) with 8589934592 in *.
+    split; [lia | lia].
+  - assert (32 ^ H <= 32 ^ 7) by (apply Z.pow_le_mono_r; lia). change (32 ^ 7) with 34359738368 in *.
+    split; [lia | lia].
+Qed.
+
 (* ------------------------------------------------------------------------------------------ *)
 (* header *)
 Lemma header_height_eq h : Z.shiftr (Z.land h 124) 2 = (h / 4) mod 32.
@@ -476,10 +583,10 @@ Proof.
   rewrite header_height_eq. pose proof (Z.mod_pos_bound (h / 4) 32 ltac:(lia)). lia.
 Qed.
 
-Theorem decode_total data bias maxv : Forall is_byte data -> Z.of_nat (length data) <= 2 ^ 27 ->
+Theorem decode_total data bias maxv : Forall is_byte data ->
   (exists rs rest, decode data bias maxv = Ok rs rest) \/ decode data bias maxv = Err.
 Proof.
-  intros Hby Hlen. destruct data as [|h tree]; [right; reflexivity|].
+  intros Hby. destruct data as [|h tree]; [right; reflexivity|].
   unfold decode. set (bf := bf_of_bits (Z.land h 3)). set (H := Z.shiftr (Z.land h 124) 2).
   assert (Hbf : bf_valid bf = true) by apply bf_of_bits_valid.
   pose proof (header_height_range h) as HH. fold H in HH. clearbody bf H.
@@ -490,23 +597,30 @@ Proof.
   pose proof (all_nodes_length bf tree Hbf) as HL. pose proof (bf_ge2 bf Hbf) as Hb2.
   rewrite dec_loop_aloop by (try assumption; cbn [length]; nia).
   cbn [skipn].
-  pose proof (aloop_safe bf H bias maxv Hbf ltac:(lia) (all_nodes bf tree) (all_nodes_bound bf tree Hbf Htree)
-                         0%nat [(0, 1)] []) as Hsafe.
   assert (Hq0 : Forall (qwf bf H) [(0, 1)]).
-  { constructor; [|constructor]. unfold qwf. cbn [fst snd]. replace (H - 1 + 1) with H by lia. lia. }
-  specialize (Hsafe Hq0).
+  { constructor; [|constructor]. unfold qwf. cbn [fst snd]. replace (H - 1 + 1) with H by lia.
+    pose proof (bf_pow_max bf H Hbf ltac:(lia)). lia. }
+  pose proof (aloop_safe bf H bias maxv Hbf ltac:(lia) (all_nodes bf tree) (all_nodes_bound bf tree Hbf Htree)
+                         0%nat [(0, 1)] [] Hq0) as Hsafe.
+  pose proof (aloop_count bf H bias maxv Hbf ltac:(lia) (all_nodes bf tree) (all_nodes_bound bf tree Hbf Htree)
+                         0%nat [(0, 1)] [] Hq0) as Hcount.
   destruct (aloop bf H bias maxv (all_nodes bf tree) 0 [(0, 1)] []) as [i' q' out'| |]; cbn [lift]; [|right; reflexivity|contradiction].
-  destruct Hsafe as (Hi & Hql & _). cbn [length] in Hql, Hlen.
-  set (n := Z.of_nat (length q') mod U32).
-  assert (Hn : 0 <= n <= Z.of_nat (length q')).
-  { unfold n. split; [apply Z.mod_pos_bound; reflexivity|]. apply Z.mod_le; [lia | reflexivity]. }
-  assert (Hsk : exists s2, ibs_skip bf (st_of_index bf i') n = Some s2).
-  { unfold ibs_skip, st_of_index, U32 in *. change (2 ^ 27) with 134217728 in Hlen.
+  destruct Hsafe as (_ & _ & Hq'). destruct Hcount as (Hc1 & Hc2).
+  cbn [sumw snd length] in Hc1, Hc2. replace (H - 1 + 1) with H in Hc1 by lia.
+  destruct (skip_safe bf H i' q' Hbf ltac:(lia) Hq' ltac:(lia) ltac:(destruct Hc2; [left; assumption | right; lia])) as (Hn1 & Hn2).
+  rewrite Z.mod_small by lia.
+  assert (Hsk : exists s2, ibs_skip bf (st_of_index bf i') (Z.of_nat (length q')) = Some s2).
+  { unfold ibs_skip. destruct (st_of_index bf i') as [bi si] eqn:Est. cbn [snd] in Hn2.
+    assert (Hsi : bf <= 4 -> 0 <= si).
+    { intros _. unfold st_of_index in Est. destruct (bf =? 2); [inversion Est; lia|]. destruct (bf =? 4); [inversion Est; lia|].
+      destruct (bf =? 8); inversion Est; lia. }
     destruct (bf_cases _ Hbf) as [E | [E | [E | E]]]; rewrite E in *; cbn [Z.eqb Pos.eqb orb].
-    - destruct (Z.leb_spec 4294967296 (n * 2)); [lia|].
-      destruct (Z.leb_spec 4294967296 (Z.of_nat (2 * (i' mod 4)) + n * 2)); [lia | eauto].
-    - destruct (Z.leb_spec 4294967296 (n * 4)); [lia|].
-      destruct (Z.leb_spec 4294967296 (Z.of_nat (4 * (i' mod 2)) + n * 4)); [lia | eauto].
+    - specialize (Hn2 ltac:(lia)). specialize (Hsi ltac:(lia)).
+      destruct (Z.leb_spec U32 (Z.of_nat (length q') * 2)); [lia|].
+      destruct (Z.leb_spec U32 (si + Z.of_nat (length q') * 2)); [lia | eauto].
+    - specialize (Hn2 ltac:(lia)). specialize (Hsi ltac:(lia)).
+      destruct (Z.leb_spec U32 (Z.of_nat (length q') * 4)); [lia|].
+      destruct (Z.leb_spec U32 (si + Z.of_nat (length q') * 4)); [lia | eauto].
     - eauto.
     - eauto. }
   destruct Hsk as (s2 & ->).
